@@ -1,6 +1,6 @@
 """C19 — names resolve as documented; failures always fall back to UTC (fallback clause)."""
 import re
-from ..frontend import kids, walk, qn, qtype, dtype, pos, ancestors, AnalysisBroken
+from ..frontend import kids, walk, qn, qtype, dtype, pos, ancestors, AnalysisBroken, params_of
 from ..expr import callee, call_args, peel, Keys
 from ..callgraph import fname
 from ..effects import var_refs
@@ -21,6 +21,82 @@ LEVEL = ('Path-insensitive-free structural proof (all paths of four small functi
          'clause and of the constants of name resolution; the environment matrix itself is runtime configuration.')
 LEVEL_NOTE = 'Trusts clang 14 AST and sa/; the $TZDIR/$TZ/$LOCALTIME/file: resolution behaviour is not decided.'
 TECHNIQUE = 'definite assignment + must-hold branch facts (dominance) + resolved string-constant agreement'
+
+
+def _subst_const_locals(u, F, key, depth=0):
+    """Replace write-once const locals in a key by what they were initialised from."""
+    if depth > 3:
+        return key
+    out = key
+    for m in re.finditer(r'\b(\w+)#(0x[0-9a-f]+)', key):
+        d = u.by_id.get(m.group(2))
+        if d is not None and d.get('kind') == 'VarDecl' and kids(d) and re.search(r'\bconst\b', qtype(d) or '') and '&' not in (qtype(d) or ''):
+            ik = F.ident_key(kids(d)[-1])
+            if ik and ik != m.group(0):
+                out = out.replace(m.group(0), ik)
+    return out if out == key else _subst_const_locals(u, F, out, depth + 1)
+
+
+def _owner_fn(x):
+    """The function (or lambda call operator) whose body directly contains x."""
+    p_ = x.get('_p')
+    while p_ is not None:
+        if p_.get('kind') in ('FunctionDecl', 'CXXMethodDecl', 'CXXConstructorDecl', 'CXXDestructorDecl', 'CXXConversionDecl'):
+            return p_
+        if p_.get('kind') == 'LambdaExpr':
+            # (clang lists the body twice: inside the closure type's call operator and as a child of the expression)
+            for y in walk(p_):
+                if y.get('kind') == 'CXXMethodDecl' and y.get('name') == 'operator()':
+                    return y
+        p_ = p_.get('_p')
+    return None
+
+
+def _strip_tmp(e):
+    x = peel(e)
+    while x is not None and x.get('kind') in ('ExprWithCleanups', 'MaterializeTemporaryExpr', 'CXXBindTemporaryExpr') and kids(x):
+        x = peel(kids(x)[0])
+    return x
+
+
+def _env_wrappers(G):
+    """Internal functions / lambdas that hand back getenv(<their own parameter>): {function key: parameter index}."""
+    out = {}
+    for kk, (u, f) in G.defs.items():
+        ps = params_of(f)
+        for x in walk(f):
+            if _owner_fn(x) is not f:
+                continue
+            if x.get('kind') == 'CallExpr' and callee(x) and callee(x)[0] == 'fn' and callee(x)[1].get('name') in ('getenv', 'secure_getenv') \
+                    and call_args(x):
+                a = peel(call_args(x)[0])
+                if a.get('kind') == 'DeclRefExpr' and (a.get('referencedDecl') or {}).get('kind') == 'ParmVarDecl':
+                    idx = [i for i, p_ in enumerate(ps) if p_['id'] == a['referencedDecl'].get('id')]
+                    if idx:
+                        out[kk] = idx[0]
+    return out
+
+
+def _env_read(G, wrappers, x):
+    """Name of the environment variable the call x reads (None: not a literal), or False when x reads none."""
+    if x is None or x.get('kind') not in ('CallExpr', 'CXXOperatorCallExpr', 'CXXMemberCallExpr') or not callee(x):
+        return False
+    c = callee(x)
+    if c[0] == 'fn' and c[1].get('name') in ('getenv', 'secure_getenv') and call_args(x):
+        a = peel(call_args(x)[0])
+        return a.get('value', '').strip('"') if a.get('kind') == 'StringLiteral' else None
+    if c[0] == 'fn':
+        for t in G.resolve_decl(c[1]):
+            if t in wrappers:
+                args = call_args(x)
+                if x.get('kind') == 'CXXOperatorCallExpr':
+                    args = args[1:]         # the closure object
+                if len(args) > wrappers[t]:
+                    a = peel(args[wrappers[t]])
+                    while a.get('kind') in ('ImplicitCastExpr',) and kids(a):
+                        a = peel(kids(a)[0])
+                    return a.get('value', '').strip('"') if a.get('kind') == 'StringLiteral' else None
+    return False
 
 
 def run(ctx):
@@ -83,11 +159,23 @@ def run(ctx):
     F = ctx.facts(f)
     g = ctx.cfg(f)
     n_ok = 0
-    for rn in g.returns:
-        fs = F.facts_at(rn)
+    from ..symval import SymVal as _SV, render as _render
+    sv_ = _SV(ctx, f)
+    cases_ = []
+    for rn in sv_.cfg.returns:
+        if not kids(rn.ast):
+            continue
+        base_ = set(F.facts_at_ast(rn.ast) or ())
+        alts_ = sv_.value(rn, kids(rn.ast)[0]) or ()
+        if not alts_:
+            cases_.append((rn, base_, F.ident_key(kids(rn.ast)[0])))
+        for (gd_, t_) in alts_:
+            # what is returned on this path, with the tests that select it (the result may be merged in a local first)
+            cases_.append((rn, base_ | set(fa for fa in sv_.facts(gd_) if len(fa) == 3 and fa[0] in ('==', '!=', '<', '<=')),
+                           _subst_const_locals(u, F, F.resolve_key(_render(t_)))))
+    for (rn, fs, rk) in cases_:
         isnull = any(op == '==' and set((a, b)) == set(('this.impl_', 'null')) for (op, a, b) in fs)
         notnull = any(op == '!=' and set((a, b)) == set(('this.impl_', 'null')) for (op, a, b) in fs)
-        rk = F.ident_key(kids(rn.ast)[0]) if kids(rn.ast) else ''
         if isnull:
             good = 'cctz::time_zone::Impl::UTC()' in rk
             ctx.check(good, 'C19-null', 'effective_impl(): null -> UTC singleton', rn.ast,
@@ -190,12 +278,15 @@ def run(ctx):
     want_env = {'TZDIR': 'cctz::FileZoneInfoSource::Open', 'TZ': 'cctz::local_time_zone',
                 'LOCALTIME': 'cctz::local_time_zone'}
     seen = {}
+    wrappers = _env_wrappers(G)
     for kk, (u, f) in G.defs.items():
         for x in walk(f):
-            if x.get('kind') == 'CallExpr' and callee(x) and callee(x)[0] == 'fn' and \
-                    callee(x)[1].get('name') in ('getenv', 'secure_getenv'):
-                a = peel(call_args(x)[0])
-                v = a.get('value', '').strip('"') if a.get('kind') == 'StringLiteral' else None
+            if _owner_fn(x) is not f:
+                continue            # (a lambda body is visited as the function it is)
+            v = _env_read(G, wrappers, x)
+            if v is not False:
+                if kk in wrappers and v is None:
+                    continue        # the wrapper's own getenv(parameter): judged at the wrapper's call sites
                 seen.setdefault(v, []).append((kk, x))
     # (a documented function may have been split into file-local helpers)
     scope_qn = {}
@@ -241,10 +332,14 @@ def run(ctx):
     F = ctx.facts(f)
     envvars = {}
     for x in walk(f):
-        if x.get('kind') == 'BinaryOperator' and x.get('opcode') == '=' and peel(kids(x)[1]).get('kind') == 'CallExpr' and \
-                callee(peel(kids(x)[1])) and callee(peel(kids(x)[1]))[1].get('name') in ('getenv', 'secure_getenv'):
-            a = peel(call_args(peel(kids(x)[1]))[0])
-            envvars[F.keys.key(kids(x)[0])] = a.get('value', '').strip('"')
+        if x.get('kind') == 'BinaryOperator' and x.get('opcode') == '=':
+            v_ = _env_read(G, wrappers, _strip_tmp(kids(x)[1]))
+            if v_:
+                envvars[F.keys.key(kids(x)[0])] = v_
+        elif x.get('kind') == 'VarDecl' and kids(x) and 'init' in x:
+            v_ = _env_read(G, wrappers, _strip_tmp(kids(x)[-1]))
+            if v_:
+                envvars['%s#%s' % (x.get('name'), x['id'])] = v_
     n_ov = 0
     for x in walk(f):
         if x.get('kind') == 'BinaryOperator' and x.get('opcode') == '=' and F.keys.key(kids(x)[1]) in envvars:
